@@ -39,6 +39,10 @@ type C19Scenario struct {
 	// WriteStopMs > 0: the writers stop after this much simulated time; the collector and the readers go on, so the
 	// evictions that follow work on what the last non-empty collection left
 	WriteStopMs int `json:"write_stop_ms,omitempty"`
+	// EdgeAfter > 0: when a collection that began just before a minute boundary has made this many steps, something
+	// else in the process is due exactly at the boundary (a timer within the run's slack), so the minute may roll over
+	// in the middle of the collection instead of before or after it
+	EdgeAfter int `json:"edge_after,omitempty"`
 	// e2e
 	R *RedisScenario `json:"redis,omitempty"`
 }
@@ -97,7 +101,7 @@ func (p c19) Gen(r *simhook.Rand, tier string, idx int) harness.Scenario {
 		switch r.Intn(4) {
 		case 0:
 			sc.PhaseUs = int64(r.Intn(60000000))
-		case 1:
+		case 1, 2:
 			// collections begin a moment before each minute boundary and may still be merging when it passes
 			sc.PhaseUs = 10000000 - int64([]int{50, 100, 500, 1000, 3000}[r.Intn(5)])
 			if sc.SlackMs == 0 {
@@ -106,7 +110,8 @@ func (p c19) Gen(r *simhook.Rand, tier string, idx int) harness.Scenario {
 			if sc.Periods < 8 {
 				sc.Periods += 8
 			}
-			if r.Chance(2, 3) {
+			sc.EdgeAfter = 1 + r.Intn(160)
+			if r.Chance(5, 6) {
 				sc.WriteStopMs = 55000 + 60000*r.Intn(2)
 				if sc.WriteStopMs > 60000 && sc.Periods < 16 {
 					sc.Periods = 16
@@ -414,9 +419,31 @@ func (p c19) runCollector(t *testing.T, sc *C19Scenario) harness.Outcome {
 		}
 	}
 	stopped := false
+	edgeSteps := 0
+	var edgeAt time.Time
 	w.check = func(tw *taskWorld) *simrt.Violation {
 		if bad != nil {
 			return bad
+		}
+		if sc.EdgeAfter > 0 && len(tw.tasks) > 0 {
+			now := time.Now()
+			b := now.Truncate(time.Minute).Add(time.Minute)
+			if !b.Equal(edgeAt) && b.Sub(now) <= 5*time.Millisecond {
+				ct := tw.tasks[0] // the collector's task is the first one started
+				inside := false
+				for _, f := range []string{"collect#", "Insert#", "ReaptIncr#", "Latch#", "Value#"} {
+					inside = inside || strings.Contains(ct.Site, f)
+				}
+				if ct.State != simhook.StDead && inside {
+					edgeSteps++
+					if edgeSteps >= sc.EdgeAfter {
+						edgeAt, edgeSteps = b, 0
+						tw.Go("harness:minute-edge", func() { simhook.Sleep(time.Until(b) + time.Microsecond) })
+					}
+				}
+			} else if b.Sub(now) > 5*time.Millisecond {
+				edgeSteps = 0
+			}
 		}
 		// stop the collector once writers and readers are done
 		alive := 0
